@@ -45,20 +45,38 @@ class Rule :
                     return
 
             if hasattr(self, 'path_namespace'):
-                if (
-                    m.path is None
-                    or not m.path.startswith(self.path_namespace)
+                # the path itself or any path beneath it (whole components)
+                ns = self.path_namespace
+                if m.path is None or not (
+                    m.path == ns
+                    or ns == '/'
+                    or m.path.startswith(ns + '/')
                 ):
                     return
 
-            if hasattr(self, 'args') and m.body is not None:
+            if hasattr(self, 'args'):
+                if m.body is None:
+                    return
                 for idx, val in self.args:
                     if idx >= len(m.body) or m.body[idx] != val:
                         return
 
-            if hasattr(self, 'arg_paths') and m.body is not None:
+            if hasattr(self, 'arg_paths'):
+                if m.body is None:
+                    return
                 for idx, val in self.arg_paths:
-                    if idx >= len(m.body) or not m.body[idx].startswith(val):
+                    if idx >= len(m.body):
+                        return
+                    arg = m.body[idx]
+                    if not isinstance(arg, str):
+                        return
+                    # equal, or whichever of the two ends in '/' is a
+                    # prefix of the other
+                    if not (
+                        arg == val
+                        or (val.endswith('/') and arg.startswith(val))
+                        or (arg.endswith('/') and val.startswith(arg))
+                    ):
                         return
 
             # XXX arg0namespace -- Not quite sure how this one works
